@@ -62,11 +62,26 @@ def row_groups(f: FuncInfo, var: str) -> List[Tuple[str, int, ast.AST]]:
     return out
 
 
+def builder_vars(f: FuncInfo):
+    """(dtype list variable, row tuple variable) of a structured-array builder, by role:
+    np.array(<rows>, dtype=<fields>) and <rows>.append(<row>)."""
+    for n in own_nodes(f.node):
+        if isinstance(n, ast.Call) and norm(n.func) in ("np.array", "numpy.array") and n.args and isinstance(n.args[0], ast.Name):
+            dt = next((k.value for k in n.keywords if k.arg == "dtype"), None)
+            if isinstance(dt, ast.Name):
+                rows = n.args[0].id
+                for a in own_nodes(f.node):
+                    if isinstance(a, ast.Call) and norm(a.func) == f"{rows}.append" and a.args and isinstance(a.args[0], ast.Name):
+                        return dt.id, a.args[0].id
+    raise AnalysisError("F4a", f.qname, "np.array(<rows>, dtype=<fields>) / <rows>.append(<row>) not found")
+
+
 def rule_F4a(ctx, qname: str, fields_var: str, row_var: str, min_groups: int):
     ctx.rule("F4a", "in each structured-array builder the sequence of (guard, arity) pairs of the dtype field list and of "
                     "the row tuple are identical: one row layout whatever the options")
     f = ctx.prog.func(qname, "F4a")
     ctx.touch(f)
+    fields_var, row_var = builder_vars(f)
     dg = dtype_groups(f, fields_var)
     rg = row_groups(f, row_var)
     if len(dg) < min_groups or len(rg) < min_groups:
@@ -140,6 +155,7 @@ def rule_rescale_set(ctx, builder_q: str, list_q: str, fields_var="fields"):
     b = ctx.prog.func(builder_q, "RESCALE")
     l = ctx.prog.func(list_q, "RESCALE")
     ctx.touch(b, l)
+    fields_var, _ = builder_vars(b)
     produced = set()
     for g, names, _ in dtype_groups(b, fields_var):
         for n in names:
